@@ -34,7 +34,7 @@ CHECKS["C12"] = dict(
          ],
 )
 
-BASE_TRUST = "Trusted: go/ssa construction, the gosym interpreter (validated on every run by replaying sampled paths natively and comparing observed values), z3 4.8.12 (thorough tier: final assertion verdicts re-discharged on z3 5.1.0 and cvc5); pkg/errors and fmt are opaque-error models."
+BASE_TRUST = "Trusted: go/ssa construction, the gosym interpreter (validated on every run by replaying sampled paths natively and comparing observed values), z3 5.1.0 (thorough tier: final assertion verdicts re-discharged on z3 4.8.12 and cvc5); pkg/errors and fmt are opaque-error models."
 
 CHECKS["C03"] = dict(
     level_text="Within the bounds the solver shows that every path the real validators accept is lexically strictly inside the destination (Join(dest,p)=dest/p, component-wise well formed) and that an accepted hard link always names an earlier accepted regular entry; hostile packet scripts against a destination with outward symlinks are decided on the model file system where registered.",
@@ -118,6 +118,29 @@ CHECKS["C20"] = dict(
          ob("VH_C20_framing", dict(D1=1, D2=0, ID=0), T, pkg=UTIL, covers=["done"], bounds="2 packets (1 and 0 data bytes), every fragmentation"),
          ob("VH_C20_framing", dict(D1=0, D2=0, ID=1), T, pkg=UTIL, covers=["done"], bounds="2 packets with symbolic ids (1- and 5-byte varints), every fragmentation"),
         ],
+)
+
+FS_TRUST = "The kernel is replaced by the model file system of /verif/models/m (root actor, umask 0, no EACCES/ENOSPC/concurrent modification; Lchown clears setuid/setgid as Linux does); claims hold for fsutil's control logic given that model, and every sampled path and every counterexample is re-run against the real kernel natively. Goroutines run under one cooperative schedule (lowest-numbered runnable goroutine, first ready select case): results are claimed for that schedule only. "
+
+CHECKS["C06"] = dict(
+    level_text="The real Send (walk, queue, four file workers, request loop) is executed symbolically against an independent reference receiver written from the protocol comment, for every source view, request script and read fragmentation inside the bounds; the solver decides every branch, so STAT order/content, DATA framing per id, rejection of invalid ids, FIN echo and progress monotonicity are shown for all those inputs under the canonical schedule.",
+    level_note="Bounds: views over {d, d/f, e, g} with solver-chosen classes (regular/symlink/fifo), regular files of 0..1 (quick) / 0..2 (thorough) symbolic bytes read in arbitrary fragments, request scripts of 2 (quick) / 3 (thorough) ids drawn from all announced positions plus one never-announced id. " + FS_TRUST + BASE_TRUST,
+    assumptions=["one schedule; request concurrency, REQ racing the STAT stream and bursts >132 are outside the claim", "the stream is an in-memory FIFO that deep-copies packets"],
+    obligations=[
+        ob("VH_C06_sender", dict(MAXB=1, NREQ=2), Q, covers=["valid-request", "invalid-request", "fin"], bounds="files <=1 byte, 2 requests"),
+        ob("VH_C06_sender", dict(MAXB=2, NREQ=3), T, covers=["valid-request", "invalid-request", "fin"], bounds="files <=2 bytes, 3 requests"),
+    ],
+)
+
+CHECKS["C07"] = dict(
+    level_text="The real Receive (packet loop, validators, dynamic walker, diff, DiskWriter, async data pipes) is executed symbolically on the model file system against an independent reference sender, for every legal STAT sequence, prior destination and DATA chunking inside the bounds: REQ ids are exactly the STAT positions of the regular non-link entries that differ, each once; stored bytes are the payload concatenation; FIN comes after all content; success only after the echo and end of stream; the destination equals the source view.",
+    level_note="Bounds: source over {d, d/f, e} (dir, regular, symlink, fifo, hard link), symbolic permission/special bits, uid, gid, mtimes from 2 values, files of 0..1 (quick) / 0..2 (thorough) symbolic bytes, chunkings of every composition; prior destination per path in {absent, identical, other file, other dir with a stale child, symlink} plus a stale extra entry. " + FS_TRUST + BASE_TRUST,
+    assumptions=["one schedule; STAT/DATA races and 1 MiB chunks are outside the claim", "synthetic stats only (no disk on the sending side)"],
+    obligations=[
+        ob("VH_C07_receiver", dict(SHAPE=0, MAXB=1), covers=["requested", "not-requested", "done"], bounds="source {d, e}, files <=1 byte"),
+        ob("VH_C07_receiver", dict(SHAPE=1, MAXB=2), covers=["requested", "not-requested", "done"], bounds="source {d, d/f}, files <=2 bytes"),
+        ob("VH_C07_receiver", dict(SHAPE=2, MAXB=1), T, covers=["requested", "not-requested", "done"], bounds="source {d, d/f, e} incl. hard link, files <=1 byte"),
+    ],
 )
 
 NOT_APPLICABLE = {
